@@ -227,6 +227,66 @@ static int run_view(const int* ops, int n) {
   return 1;
 }
 
+/* ---- domain: programs that rely on the collector (or, without one, simply never free) ------------------ */
+
+static void __attribute__((noinline)) churn(int n) {
+  for (int i = 0; i < n; i++) { var g = new(Int, $I(i)); (void)g; }
+}
+
+static int run_gcuse(const int* ops, int n) {
+  volatile var slot = NULL;           /* a stack root */
+  int have_tls = 0, serial = 0;
+  for (int i = 0; i < n; i++) {
+    switch (ops[i]) {
+    case 0: slot = new(Int, $I(100 + serial++)); break;
+    case 1: { var s = new(String, $S("v")); print_to(s, 1, "%i", $I(serial++)); set(current(Thread), $S("cfgk"), s); have_tls = 1; break; }
+    case 2: churn(300); break;
+    case 3: if (have_tls) { rem(current(Thread), $S("cfgk")); have_tls = 0; } break;
+    case 4: { var v = new(Int, $I(7 + serial++)); var a = new(Array, Ref, v); slot = a; break; }   /* reachable only through a container */
+    }
+    T_mark("gcuse");
+    if (slot) { if (type_of((var)slot) is Int) T_u((uint64_t)c_int((var)slot)); else { T_u((uint64_t)c_int(deref(get((var)slot, $I(0))))); } }
+    if (have_tls) T_str(c_str(get(current(Thread), $S("cfgk"))));
+  }
+  if (have_tls) rem(current(Thread), $S("cfgk"));
+  slot = NULL;
+  return 1;
+}
+
+/* ---- domain: String elements inside containers (grown in place through the element handle) -------------- */
+
+static int run_strarr(int kind, const int* ops, int n) {
+  var x = kind == 0 ? (var)new_raw(Array, String) : kind == 1 ? (var)new_raw(List, String) : (var)new_raw(Table, String, String);
+  int ml = 0, ok = 1;
+  static const char* keys[] = { "k0", "k1", "k2" };
+  int present[3] = {0};
+  for (int i = 0; i < n && ok; i++) {
+    int op = ops[i];
+    if (kind < 2) {
+      if (op == 0) { if (ml >= 5) { ok = 0; break; } push(x, $S("a")); ml++; }
+      else if (op == 1) { if (ml >= 5) { ok = 0; break; } push(x, $S("bc")); ml++; }
+      else if (op == 2) { if (!ml) { ok = 0; break; } concat(get(x, $I(0)), $S("x")); }
+      else if (op == 3) { if (!ml) { ok = 0; break; } append(get(x, $I(-1)), $S("y")); }
+      else if (op == 4) { if (!ml) { ok = 0; break; } pop(x); ml--; }
+      else if (op == 5) { if (!ml) { ok = 0; break; } set(x, $I(0), $S("zz")); }
+      else if (op == 6) { if (!ml) { ok = 0; break; } resize(get(x, $I(0)), 1); }
+      else if (op == 7) { if (!ml) { ok = 0; break; } print_to(get(x, $I(-1)), 0, "%i!", $I(ml)); }
+      T_mark("strarr"); T_u(len(x));
+      foreach (e in x) { T_str(c_str(e)); T_u(len(e)); }
+      T_u(hash(x));
+    } else {
+      if (op < 3) { set(x, $S((char*)keys[op]), $S("v")); present[op] = 1; }
+      else if (op < 6) { int k = op - 3; if (!present[k]) { ok = 0; break; } concat(get(x, $S((char*)keys[k])), $S("+")); }
+      else if (op == 6) { if (!present[0]) { ok = 0; break; } rem(x, $S("k0")); present[0] = 0; }
+      else if (op == 7) { if (!present[1]) { ok = 0; break; } print_to(get(x, $S("k1")), 1, "%s", $S("w")); }
+      T_mark("strtab"); T_u(len(x));
+      for (int k = 0; k < 3; k++) if (present[k]) T_str(c_str(get(x, $S((char*)keys[k]))));
+    }
+  }
+  del_raw(x);
+  return ok;
+}
+
 /* ---- domain: values (cmp / hash / dispatch) ---------------------------------------------------------- */
 
 static uint64_t run_values(void) {
@@ -260,6 +320,7 @@ struct domain { const char* name; int nops; int depth; int fixedlen; };
 static struct domain DOM[] = {
   { "array", 13, 4, 0 }, { "list", 13, 4, 0 }, { "table", 14, 4, 0 }, { "tree", 14, 4, 0 }, { "string", 10, 4, 0 },
   { "exc", 3, 5, 1 }, { "view", 6, 4, 1 },
+  { "gcuse", 5, 4, 0 }, { "strarray", 8, 4, 0 }, { "strlist", 8, 4, 0 }, { "strtable", 8, 4, 0 },
 };
 
 static int run_prog(int d, const int* ops, int n) {
@@ -267,6 +328,7 @@ static int run_prog(int d, const int* ops, int n) {
   case 0: return run_seq(0, ops, n); case 1: return run_seq(1, ops, n);
   case 2: return run_map(0, ops, n); case 3: return run_map(1, ops, n);
   case 4: return run_str(ops, n); case 5: return run_exc(ops, n); case 6: return run_view(ops, n);
+  case 7: return run_gcuse(ops, n); case 8: return run_strarr(0, ops, n); case 9: return run_strarr(1, ops, n); case 10: return run_strarr(2, ops, n);
   }
   return 0;
 }
@@ -287,8 +349,10 @@ int main(int argc, char** argv) {
       else n = decode(idx, DOM[d].nops, depth, ops);
       printf("program %s:%llu ops:", dn, idx); for (int i = 0; i < n; i++) printf(" %d", ops[i]);
       dg = 14695981039346656037ULL;
-      int ok = run_prog((int)d, ops, n);
-      printf("\n in-contract=%d digest=%016" PRIx64 "\n", ok, dg);
+      volatile int ok = 0;
+      var exc = VF_CATCH(ok = run_prog((int)d, ops, n));
+      if (exc) { T_mark("raised"); T_str(c_str(exc)); ok = 1; }
+      printf("\n in-contract=%d digest=%016" PRIx64 "\n", (int)ok, dg);
     }
     vf.states = 1; vf.executions = 1;
     vf_finish();
@@ -307,7 +371,10 @@ int main(int argc, char** argv) {
       else n = decode(idx, DOM[d].nops, depth, ops);
       if ((idx & 4095) == 0) { vf_watchdog(120); vf_set_cur("%s:%" PRIu64, DOM[d].name, idx); }
       dg = 14695981039346656037ULL;
-      int ok = run_prog((int)d, ops, n);
+      volatile int ok = 0;
+      /* an in-contract program raises nothing; if one configuration raises, that is part of its transcript */
+      var exc = VF_CATCH(ok = run_prog((int)d, ops, n));
+      if (exc) { T_mark("raised"); T_str(c_str(exc)); ok = 1; }
       emit(ok ? dg : 0);
       if (ok) { dom_in++; if (vf_want_sample()) { char b[128]; size_t o = 0; for (int i = 0; i < n; i++) o += snprintf(b + o, sizeof b - o, "%d ", ops[i]); vf_sample("%s:%" PRIu64 " ops [%s] digest %016" PRIx64, DOM[d].name, idx, b, dg); } }
     }
